@@ -2,7 +2,6 @@
 import random
 
 META = {
-    "disabled": True,
     "level": "model_checking",
     "text": "TLC exhaustively checks a specification of processPubsubMessage / processContainerMessage (container decoding, type "
             "lookup, payload decoding, identity decoding, outer = inner comparison, operator key type, deliver) over all envelopes "
